@@ -120,6 +120,11 @@ impl StateMachine<'_> {
                 // is not a hunk line, but the parser does not have a more accurate state corresponding
                 // to this.
                 self.painter.paint_buffered_minus_and_plus_lines();
+                // An entirely empty line is an unchanged empty line whose leading space was
+                // dropped (`diff --suppress-blank-empty`, mail tools): it is a line of the old file.
+                if self.line.is_empty() {
+                    self.minus_line_counter.count_line();
+                }
                 // Not the raw line: git terminates this line with a color reset sequence when
                 // it colors the diff, which must not make a difference to the output.
                 self.painter
